@@ -63,10 +63,10 @@ func C15(e *core.Env) int {
 	pkgForms := []string{"absent", "absent", "path", "pathname", "name"}
 	pkgDirs := []string{"a", "b/c", "My-Pkg_2/in"}
 	type scen struct {
-		name    string
-		convs   []*c15Conv
-		invoke  string // root sub cwdflag
-		conflict bool
+		name       string
+		convs      []*c15Conv
+		invoke     string // root sub cwdflag
+		conflict   bool
 		globalFile bool
 	}
 	var scens []scen
@@ -121,12 +121,12 @@ func C15(e *core.Env) int {
 		scens = append(scens, s)
 	}
 	type result struct {
-		viols []*core.Viol
-		nt    string
-		sample map[string]any
-		events int
-		ok     bool
-		dir    string
+		viols     []*core.Viol
+		nt        string
+		sample    map[string]any
+		events    int
+		ok        bool
+		dir       string
 		buildable bool
 	}
 	results := make([]result, len(scens))
